@@ -575,3 +575,52 @@ func ruleLooseAgree(c *Ctx) {
 		c.Assume("LOOSE-AGREE: no store into the tightness flag of a list's child was found; the rule recognises nothing and decides nothing")
 	}
 }
+
+// UNPARSED-RETURN: the inline pass hands back what it built, never the block's line nodes.
+func ruleUnparsedReturn(c *Ctx) {
+	c.Rule("UNPARSED-RETURN", "(*InlineParser).parse replaces a block's line nodes (Unparsed, Indent) by inline nodes; Rewrite stores what it returns as the block's children. No value it returns is the block's own inlineChildren slice (or a re-slice of it): a fast path 'nothing to do, return the children as they are' leaves an UnparsedKind node in a fully parsed tree — for an empty ATX heading, whose only line node has zero length.")
+	p := c.P
+	fn := p.Method("InlineParser", "parse")
+	if !c.NeedFunc("UNPARSED-RETURN", fn, "(*InlineParser).parse") {
+		return
+	}
+	n := 0
+	for i, r := range returnsOf(fn) {
+		for _, res := range r.Results {
+			n++
+			bad := false
+			seen := map[ssa.Value]bool{}
+			var walk func(v ssa.Value, d int)
+			walk = func(v ssa.Value, d int) {
+				if v == nil || seen[v] || d > 6 {
+					return
+				}
+				seen[v] = true
+				switch x := v.(type) {
+				case *ssa.Slice:
+					walk(x.X, d+1)
+				case *ssa.Phi:
+					for _, e := range x.Edges {
+						walk(e, d+1)
+					}
+				case *ssa.UnOp:
+					if _, ok := isLoadOfField(x, "Block", "inlineChildren"); ok {
+						bad = true
+					}
+				}
+			}
+			walk(res, 0)
+			c.Check(!bad, "UNPARSED-RETURN", fmt.Sprintf("parse:return#%d", i), r.Pos(), "the block's own line nodes are returned as the result of the inline pass")
+		}
+	}
+	if n == 0 {
+		c.Undecided("UNPARSED-RETURN", "parse:returns", fn.Pos(), "no return found")
+	}
+}
+
+func init() {
+	addControls(
+		Control{Name: "inline-pass-returns-line-nodes-for-empty-text", Props: []string{"C05"}, File: "inlines.go",
+			Old: "func (p *InlineParser) parse(source []byte, container *Block) []*Inline {\n", New: "func (p *InlineParser) parse(source []byte, container *Block) []*Inline {\n\tif len(container.inlineChildren) == 1 && container.inlineChildren[0].Span().Len() == 0 {\n\t\treturn container.inlineChildren\n\t}\n", Expect: "UNPARSED-RETURN/parse:return"},
+	)
+}
